@@ -339,6 +339,68 @@ func (x *Run) checkGoShare(fn *ssa.Function) {
 			x.obligeStatic(newState(), fmt.Sprintf("capture.%s.callback#%d", x.fnShort(fn), nc), "goshare", okAll, mc.Pos(), note)
 		}
 	}
+	// A-SLICE side condition: slices are values in the model (an append never
+	// writes through another slice). That is only true when no two long-lived
+	// slices share spare capacity: a slice made here with room to grow
+	// (make with a capacity that is not the constant 0, or a re-slice) must
+	// not be stored into more than one field / map row / element.
+	ns := 0
+	for _, b := range fn.Blocks {
+		for _, ins := range b.Instrs {
+			var v ssa.Value
+			switch m := ins.(type) {
+			case *ssa.MakeSlice:
+				if c, ok := m.Cap.(*ssa.Const); ok && c.Value != nil && c.Int64() == 0 {
+					continue
+				}
+				v = m
+			case *ssa.Slice:
+				switch xt := m.X.Type().Underlying().(type) {
+				case *types.Slice:
+				case *types.Pointer:
+					// make with constant length and capacity is compiled to
+					// `new [cap]T` + `slice [:len]`
+					at, isArr := xt.Elem().Underlying().(*types.Array)
+					if !isArr || at.Len() == 0 {
+						continue
+					}
+				default:
+					continue
+				}
+				if _, isSlice := m.Type().Underlying().(*types.Slice); !isSlice {
+					continue
+				}
+				v = m
+			default:
+				continue
+			}
+			stores := 0
+			for _, r := range *v.Referrers() {
+				switch c := r.(type) {
+				case *ssa.Store:
+					if c.Val == v {
+						switch c.Addr.(type) {
+						case *ssa.FieldAddr, *ssa.IndexAddr:
+							stores++
+						}
+					}
+				case *ssa.MapUpdate:
+					if c.Value == v {
+						stores++
+					}
+				}
+			}
+			if stores == 0 {
+				continue
+			}
+			ns++
+			note := "a slice with room to grow is stored in one place only"
+			if stores > 1 {
+				note = fmt.Sprintf("one slice with spare capacity is stored in %d places: appends through one of them overwrite what the others hold", stores)
+			}
+			x.obligeStatic(newState(), fmt.Sprintf("alias.%s.slice#%d", x.fnShort(fn), ns), "goshare", stores <= 1, ins.Pos(), note)
+		}
+	}
 	n := 0
 	for _, b := range fn.Blocks {
 		for idx, ins := range b.Instrs {
